@@ -15,13 +15,39 @@ PROVED = [
     '[P] factorize_zero, factorize_const: (0, []) for the zero polynomial and (c, []) for a non-zero constant c, for every draw stream',
     '[P] factors_divide (on factorize_full = factorize + ghost final cofactor; factorize_is_full_run ties the two): for every completed run on a canonical input, '
     'with pp the primitive part: pp = cof * prod f_i^e_i exactly, every e_i >= 0, every f_i was divided out as often as possible (f_i does not divide the cofactor '
-    'left at that time: soundness and completeness of div_exact, C09), every returned polynomial except the last is a cont_pp output (canonical, primitive, lc > 0), '
-    'the last one and the cofactor are canonical; factor_power_divides_pp: every f_i^e_i divides pp',
+    'left at that time: soundness and completeness of div_exact, C09), the cofactor is canonical; factor_power_divides_pp: every f_i^e_i divides pp',
     '[P] content_is_signed_content: c divides every coefficient, every common divisor of the coefficients divides c, c > 0 <-> lc(a) > 0',
-    '[C] factorize_product_partial: if the final cofactor of the run is [1] then a = c * prod f_i^e_i (as polynomials and as stored vectors); the correspondence check '
-    'reports every model run whose final cofactor is not [1]',
-    '[C] factors_primitive_positive_partial: every returned polynomial, the last one included, is canonical, primitive and has lc > 0 whenever the gcd(pp, pp\') computed by the run '
-    'has a positive leading coefficient (a value of the run; always the case when the sub-resultant divisions are exact, C10)',
+    '[P] factors_primitive_positive (third wave; replaces the [C] factors_primitive_positive_partial, which is kept): every returned polynomial, the last one included, is canonical, '
+    'primitive and has lc > 0, for every completed run (resultant_gcd returns lc > 0: C10 gcd_spec, now unconditional)',
+    '[P] squarefree_part_spec (third wave): for a canonical non-constant input with primitive part pp, resultant_gcd(pp, pp\') returns g, div_exact(pp, g) succeeds with quotient q '
+    '(so the expect("This division cannot fail") of mod.rs:24 never fires: the run equals the rest of the pipeline applied to q), pp = q g with g associated over Q to gcd(pp, pp\') '
+    '(MathComp gcdp), q is square-free over Q (coprimep q q\'), and every divisor of pp coprime to q is a non-zero constant (every irreducible factor of pp divides q); '
+    'squarefree_part_char0: the abstract statement over any integral domain of characteristic 0 (Refine/PolyZFactorW3Sqf.v)',
+    '[P] multiplicities_positive (third wave): every returned polynomial is non-constant and every e_i >= 1; multiplicities_exact / multiplicities_exact_input: f_i^k divides pp '
+    '(resp. the input) over Q -- equivalently in Z[x], f_i being primitive -- iff k <= e_i',
+    '[P] factors_pairwise_distinct (third wave): the returned polynomials are pairwise distinct and any two of them are coprime over Q',
+    '[P] product_up_to_cofactor (third wave): for a non-constant input a = c * cof * prod f_i^e_i where the ghost cofactor cof is primitive with lc > 0, '
+    'gcd(pp, pp\') as computed by the run = cof * prod f_i^(e_i - 1), and every divisor of cof coprime to prod f_i is a non-zero constant',
+    '[P] factorize_product_squarefree (third wave): the product clause for every input without repeated factor (coprimep a a\', a hypothesis on the input): cof = [1], every e_i = 1, a = c * prod f_i',
+    '[C] factorize_product_of_irreducible (third wave): the product clause for all inputs under the hypothesis that every returned polynomial is irreducible over Q '
+    '(MathComp irreducible_poly): then cof = [1] and a = c * prod f_i^e_i; [C] factorize_product_partial: the same if the final cofactor of the run is [1] '
+    '(the correspondence check reports every model run whose final cofactor is not [1])',
+    '[P] recombination_expect_unreachable / subset_test_expect_unreachable (third wave): the expect("This division will always succeed") of the recombination (mod.rs:109) never fires '
+    '(Gauss: pp(prod) divides a when prod divides lc(a) a); with squarefree_part_spec neither expect of poly_z::factorize can fire',
+    '[P] hensel_lift_unique (third wave): uniqueness of Hensel lifts in Z[x] (A B = A\' B\' mod p^e, A = A\', B = B\' mod p, same degrees and leading coefficients prime to p, A and B coprime mod p '
+    '=> A = A\', B = B\' mod p^e); true_factors_split_lifted: every factorisation a = u v in Z[x] of a polynomial with a lifted factorisation a = lc(a) prod l_i mod p^e (l_i monic, irreducible and '
+    'pairwise coprime mod p) splits the l_i: u = lc(u) prod_{i in S} l_i, v = lc(v) prod_{i not in S} l_i mod p^e',
+    '[C] squarefree_factors_irreducible_partial, factors_irreducible_partial, factorize_complete_partial (third wave): every polynomial returned by get_factors_of_squarefree / factorize_full '
+    'is irreducible over Q (MathComp irreducible_poly over Z = irreducible in Q[x]), and then the final cofactor is 1 and a = c * prod f_i^e_i, conditional on values of the run: the prime found by the search '
+    'equals its machine-word copy (not wrapped by `as i32`) and the modulus p^e chosen by the run exceeds 2 |lc(v) u_i| for every factorisation q = u v in Z[x] of the square-free part and every i '
+    '(prec_ok: the conclusion of the Landau-Mignotte bound, which is NOT proved); uses C08 (monic, irreducible, pairwise distinct modular factors multiplying to the input), C11 (lift_factorization_spec), '
+    'the mask order of the subset enumeration, completeness and soundness of each subset test',
+    '[P] landau_mignotte_bound (third wave): if q = u v in Z[x], q <> 0, then |lc(v) u_i| <= C(deg u, i) * sum_j |q_j| for every i (over MathComp\'s algebraic numbers: Landau\'s inequality by '
+    'Mignotte\'s reflection argument + binomial bound on the coefficients of prod (x - a_i)); coefficient_bound_sufficient: every modulus above the bound (|lc| + sum |a_i|) 2^(n-1) 2 |lc| computed by the code '
+    'exceeds 2 |lc(v) u_i| for every factorisation q = u v and every i (prec_ok)',
+    '[C] squarefree_factors_irreducible_flag, factorize_correct_flag (third wave): for every completed run on a canonical input of at most 2^32 coefficients, if the prime returned by the prime search for the '
+    'square-free part equals its machine-word copy (find_prime returns (p, p): the prime was not wrapped by `as i32`, i.e. it is below 2^31 -- a value of the run; primes found on all explored inputs are tiny) then '
+    'every returned polynomial is irreducible over Q, the final cofactor is 1 and a = c * prod f_i^e_i: together with the unconditional clauses above, the whole property C07 for such runs',
     '[P] squarefree_factors_product: the polynomials returned by get_factors_of_squarefree multiply back to its argument; all but the last are primitive with lc > 0',
     '[P] multiplicity_any: the multiplicity loop returns the true multiplicity n for every n (a = c f^n, f non-constant, f not dividing c -> (c, n)); '
     'multiplicity_no_panic / multiplicity_loops_no_panic: no panic from the loops; multiplicity_loops_terminate: the fuel supplied by the model suffices for non-constant divisors',
@@ -29,15 +55,18 @@ PROVED = [
     'k = 0 .. 2^len - 1 with popcount d in increasing k, i.e. the mask loop of the Rust code',
     '[P] fuel: exponent_loop_spec (the exponent loop terminates on the supplied fuel and returns the least p^e > bound, p >= 2), coefficient_bound_no_overflow '
     '(no usize overflow for a non-constant polynomial; closed form of the bound), recombination_terminates (the recombination loop never runs out of the supplied fuel)',
-    'non-vacuity: complete runs by vm_compute: (x+1)^7, 3x^2(x+1)^12, 4x^4+1 with the 40 logged random bytes, -6(x^2+x+1)(2x^2+1), x^4-10x^2+1 (split mod every prime)',
+    'non-vacuity: complete runs by vm_compute: (x+1)^7, 3x^2(x+1)^12, 4x^4+1 with the 40 logged random bytes, -6(x^2+x+1)(2x^2+1), x^4-10x^2+1 (split mod every prime); '
+    'the gcd and square-free part of (x+1)^7; the separability hypothesis for x^4-10x^2+1 and -6(x^2+x+1)(2x^2+1); the irreducibility hypothesis for the run on (x+1)^7',
 ]
 NOT_PROVED = [
-    'irreducibility and pairwise distinctness of the returned factors (no theorem; checked by the independent oracle on every explored input)',
-    'completeness of the subset recombination / that the final cofactor is always 1 (needs the Mignotte-type coefficient bound and uniqueness of Hensel lifts, C08/C11 [N] parts); e_i >= 1',
-    'that gcd(a, a\') is the squarefree cofactor (C10 sub-resultant exactness) -- not needed for the clauses above, the factors are re-divided into the primitive part',
-    'primitivity / positive leading coefficient of the last returned factor unconditionally (proved under the run-computed condition lc(gcd(pp, pp\')) > 0)',
+    'irreducibility of the returned factors and the product clause for inputs with repeated factors WITHOUT the run-computed condition "the prime found equals its machine-word copy" (p < 2^31): '
+    'for a polynomial whose leading coefficient and discriminant are divisible by every prime below 2^31 the code would wrap the prime to a negative i32 (the faithful model does the same); no such input is physically '
+    'representable. The Landau-Mignotte bound, uniqueness of Hensel lifts and completeness of the subset search ARE proved. The clause is also checked by the independent oracle on every explored input and the cofactor '
+    'flag of every model run by the correspondence',
     'termination of the prime search (needs a bound on the primes dividing lc * disc; run on generous fuel) and of the modular factorisation (probability 1 only); '
     'the exponent loop, the recombination loop and the multiplicity loops are proved to terminate on the supplied fuel',
+    'absence of panics inside the modular factorisation / Hensel lifting on the inputs factorize passes to them, and of the assert!(lifted.len() <= 25) (outside the property: more than 25 modular factors); '
+    'the two expect() of poly_z::factorize are proved unreachable',
 ]
 RULE = ('poly_z::factorize with logged random draws replayed by the model: every coefficient vector of length 4 over {-2..2} (all polynomials of degree <= 3, '
         'trailing zeros included) and 300 of degree 4 (thorough: all 2500); products c * prod g_i^e_i of 1-4 distinct factors from a table of 33 certified irreducibles '
@@ -49,15 +78,19 @@ RULE = ('poly_z::factorize with logged random draws replayed by the model: every
         'kinds of inputs, with trailing zero coefficients in the configuration, against the model run on the CLI\'s own (default-seeded) draw stream and against the library. '
         'Non-trivial = input of degree >= 1.')
 CLAIM = dict(
-    technique='Coq proof (MathComp {poly Z} as specification, on top of the C09 refinement) about the Gallina model Model/PolyZFactor.v + extracted-model-vs-implementation '
+    technique='Coq proof (MathComp {poly Z} as specification, on top of the C09 refinement, the unconditional C10 gcd theorems and Gauss\'s lemma; square-free theory in characteristic 0 '
+              'on top of MathComp separable.v) about the Gallina model Model/PolyZFactor.v + extracted-model-vs-implementation '
               'correspondence with replayed random draws + independent python oracle (exact product, content, primitivity, distinctness, multiplicities by repeated exact division, '
               'irreducibility by modular degree patterns / Kronecker search)',
-    text='coq/Props/C07.v: for every canonical input and every draw stream, a completed run returns the signed content, polynomials f_i with exponents e_i >= 0 such that '
-         'pp(a) = cofactor * prod f_i^e_i, each f_i divided out to its full multiplicity (of any size; no panic in the loop), all but the last f_i primitive with positive leading '
-         'coefficient; if the final cofactor is 1 then a = c * prod f_i^e_i exactly; zero gives (0, []), a constant c gives (c, []). The model is tied to /repo by running the extracted '
-         'model on the random bytes logged by the implementation: identical answers including the order of the factors and the number of bytes consumed.',
-    note='Irreducibility, distinctness, e_i >= 1 and "the final cofactor is always 1" are not proved (Mignotte bound, Hensel uniqueness, C08 irreducibility are not available); they are '
-         'checked by the oracle (always_oracle) and by the cofactor flag of every model run. Termination of the prime search / recombination is on fuel.',
+    text='coq/Props/C07.v: for every canonical input and every draw stream, a completed run returns the signed content c and pairs (f_i, e_i) such that every f_i is canonical, primitive, '
+         'non-constant with positive leading coefficient, the f_i are pairwise distinct and pairwise coprime over Q, every e_i >= 1 is the exact multiplicity of f_i in the input, and '
+         'a = c * cof * prod f_i^e_i for a ghost cofactor cof that is primitive, positive, divides gcd(pp, pp\') and has all its irreducible factors among those of prod f_i. The square-free part '
+         'is computed correctly (gcd and exact division never fail; the quotient is square-free and has every irreducible factor of the input). The product clause a = c * prod f_i^e_i is '
+         'proved for all square-free inputs, and for all inputs if the returned polynomials are irreducible or the run\'s final cofactor is 1. Irreducibility of every returned polynomial, hence the whole property (cofactor 1, a = c * prod f_i^e_i, f_i irreducible), is proved for every completed run on an input of at most 2^32 coefficients whose prime search returned a prime below 2^31 (not wrapped by `as i32`; a value of the run): Landau-Mignotte bound (over the algebraic numbers) => the modulus p^e chosen by the code suffices; uniqueness of Hensel lifts; soundness and completeness of the subset search in mask order (with C08 and C11). Neither expect() of poly_z::factorize can fire. Zero gives (0, []), a constant c gives (c, []). '
+         'The model is tied to /repo by running the extracted model on the random bytes logged by the implementation: identical answers including the order of the factors and the number of bytes consumed.',
+    note='Irreducibility and the product clause for inputs with repeated factors are [C]: conditional on the run-computed flag "prime found = its machine-word copy" (p < 2^31) and on at most 2^32 coefficients; '
+         'they are also checked by the oracle (always_oracle) and by the cofactor flag of every model run. Termination of the prime search and of the '
+         'modular factorisation is on fuel.',
     ref='DESIGN.md section 4, C07')
 
 # ------------------------------------------------------------------ Z[x] helpers (independent of the model)
